@@ -531,7 +531,8 @@ impl<'de, R: Read<'de>> Parser<R> {
                 // A sign followed by a dot starts a peculiar identifier such as
                 // `-.a` (R7RS 7.1.1); numbers need a digit before the dot.
                 if next == 0 || is_delimiter(next) || is_sign_subsequent(next) || next == b'.' {
-                    Token::Symbol(self.parse_symbol_suffix("-")?.into())
+                    let name = self.parse_symbol_suffix("-")?;
+                    self.symbol_token(name)
                 } else {
                     Token::Number(self.parse_num_token(10, false)?)
                 }
@@ -542,7 +543,8 @@ impl<'de, R: Read<'de>> Parser<R> {
                 // A sign followed by a dot starts a peculiar identifier such as
                 // `+.a` (R7RS 7.1.1); numbers need a digit before the dot.
                 if next == 0 || is_delimiter(next) || is_sign_subsequent(next) || next == b'.' {
-                    Token::Symbol(self.parse_symbol_suffix("+")?.into())
+                    let name = self.parse_symbol_suffix("+")?;
+                    self.symbol_token(name)
                 } else {
                     Token::Number(self.parse_num_token(10, true)?)
                 }
@@ -555,7 +557,7 @@ impl<'de, R: Read<'de>> Parser<R> {
                     // number; `1+` or `1.5.6` are symbols.
                     match (num_parser.parse_num_literal(10, true), num_parser.peek()) {
                         (Ok(token), Ok(None)) => Token::Number(token),
-                        _ => Token::Symbol(symbol.into()),
+                        _ => self.symbol_token(symbol),
                     }
                 } else {
                     Token::Number(self.parse_num_token(10, true)?)
@@ -601,24 +603,8 @@ impl<'de, R: Read<'de>> Parser<R> {
                 }
             }
             b'a'..=b'z' | b'A'..=b'Z' => {
-                let mut name = self.parse_symbol()?;
-                if self.options.keyword_syntax(KeywordSyntax::ColonPostfix) && name.ends_with(':') {
-                    name.pop();
-                    Token::Keyword(name.into())
-                } else if self.options.nil_symbol() != NilSymbol::Default && name == "nil" {
-                    match self.options.nil_symbol() {
-                        NilSymbol::EmptyList => Token::Null,
-                        NilSymbol::Special => Token::Nil,
-                        NilSymbol::Default => unreachable!(),
-                    }
-                } else if self.options.t_symbol() != TSymbol::Default && name == "t" {
-                    match self.options.t_symbol() {
-                        TSymbol::True => Token::Bool(true),
-                        TSymbol::Default => unreachable!(),
-                    }
-                } else {
-                    Token::Symbol(name.into())
-                }
+                let name = self.parse_symbol()?;
+                self.symbol_token(name)
             }
             b'?' if self.options.char_syntax == CharSyntax::Elisp => {
                 self.eat_char();
@@ -648,11 +634,13 @@ impl<'de, R: Read<'de>> Parser<R> {
                 if !c.is_alphabetic() {
                     return Err(self.peek_error(ErrorCode::ExpectedSomeValue));
                 }
-                Token::Symbol(self.parse_symbol_scratch_suffix()?.into())
+                let name = self.parse_symbol_scratch_suffix()?;
+                self.symbol_token(name)
             }
             _ => {
                 if SYMBOL_EXTENDED.contains(&peek) {
-                    Token::Symbol(self.parse_symbol()?.into())
+                    let name = self.parse_symbol()?;
+                    self.symbol_token(name)
                 } else {
                     // Consume the offending byte, so that a caller which
                     // carries on after the error does not see it again.
@@ -663,6 +651,44 @@ impl<'de, R: Read<'de>> Parser<R> {
             }
         };
         Ok(token)
+    }
+
+    // Turns the text of a symbol-like token into a token, taking the
+    // colon-postfix keyword syntax and the treatment of `nil` and `t` into
+    // account.
+    fn symbol_token(&self, mut name: String) -> Token {
+        if self.options.keyword_syntax(KeywordSyntax::ColonPostfix)
+            && name.len() > 1
+            && name.ends_with(':')
+        {
+            name.pop();
+            Token::Keyword(name.into())
+        } else if self.options.nil_symbol() != NilSymbol::Default && name == "nil" {
+            match self.options.nil_symbol() {
+                NilSymbol::EmptyList => Token::Null,
+                NilSymbol::Special => Token::Nil,
+                NilSymbol::Default => unreachable!(),
+            }
+        } else if self.options.t_symbol() != TSymbol::Default && name == "t" {
+            match self.options.t_symbol() {
+                TSymbol::True => Token::Bool(true),
+                TSymbol::Default => unreachable!(),
+            }
+        } else {
+            Token::Symbol(name.into())
+        }
+    }
+
+    // The value of a symbol-like token.
+    fn symbol_value(&self, name: String) -> Value {
+        match self.symbol_token(name) {
+            Token::Keyword(name) => Value::Keyword(name),
+            Token::Symbol(name) => Value::Symbol(name),
+            Token::Null => Value::Null,
+            Token::Nil => Value::Nil,
+            Token::Bool(b) => Value::Bool(b),
+            _ => unreachable!(),
+        }
     }
 
     /// Parse an S-expression, returning `None` on end-of-input.
@@ -943,7 +969,8 @@ impl<'de, R: Read<'de>> Parser<R> {
                                 pair.set_cdr(Value::from((Value::Nil, Value::Null)));
                                 pair = pair.cdr_mut().as_cons_mut().unwrap();
                             }
-                            pair.set_car(Value::symbol(self.parse_symbol_suffix(".")?));
+                            let name = self.parse_symbol_suffix(".")?;
+                            pair.set_car(self.symbol_value(name));
                             have_value = true;
                         }
                     }
@@ -1008,7 +1035,8 @@ impl<'de, R: Read<'de>> Parser<R> {
                                 pair = pair.cdr_mut().as_cons_mut().unwrap();
                                 meta = meta[1].cons_mut().unwrap();
                             }
-                            pair.set_car(Value::symbol(self.parse_symbol_suffix(".")?));
+                            let name = self.parse_symbol_suffix(".")?;
+                            pair.set_car(self.symbol_value(name));
                             meta[0] = SpanInfo::Prim(Span::new(start, self.read.position()));
                             have_value = true;
                         }
